@@ -38,7 +38,7 @@ def FieldOk (st : Style) (env : PEnv) : FK → FV → Prop
   | .sigtime, .n v => v < 4294967296
   | .b32hex, .b s => (∀ x ∈ s, x < 256) ∧ s ≠ [] ∧ s.length ≤ 255
   | .hexOne, .b s => (∀ x ∈ s, x < 256) ∧ s ≠ [] ∧ s.length ≤ 255
-  | .b64One, .b s => (∀ x ∈ s, x < 256) ∧ s ≠ []
+  | .b64One, .b s => (∀ x ∈ s, x < 256) ∧ s ≠ [] ∧ s.length ≤ 65535
   | .rcode, .n v => v ≤ 4095
   | .gpos lim, .b s => s.length ≤ 255 ∧ gposCheck lim s = true
   | .nameRaw, .nm n => WfName n ∧ OctetsOk n ∧ chooseRelativity n st.origin st.relativize = .ok n
@@ -91,7 +91,7 @@ theorem field_rt (st : Style) (env : PEnv) (k : FK) (v : FV) (h : FieldOk st env
   case keyProto.n v => exact ⟨_, _, field_keyProto st env v h⟩
   case sigtime.n v => obtain ⟨t, ht⟩ := field_sigtime st env v h; exact ⟨_, _, ht⟩
   case hexOne.b s => exact ⟨_, _, field_hexOne st env s h.1 h.2.1 h.2.2⟩
-  case b64One.b s => exact ⟨_, _, field_b64One st env s h.1 h.2⟩
+  case b64One.b s => exact ⟨_, _, field_b64One st env s h.1 h.2.1 h.2.2⟩
   case rcode.n v => obtain ⟨t, ht⟩ := field_rcode st env v h; exact ⟨_, _, ht⟩
   case gpos.b lim s => exact ⟨_, _, field_gpos st env lim s h.1 h.2⟩
   case nameRaw.nm n => exact ⟨_, _, field_nameRaw st env n h.1 h.2.1 h.2.2⟩
@@ -189,7 +189,7 @@ def TailOk (st : Style) (env : PEnv) (vals : List FV) : TK → Option FV → Pro
     (keyIsNoKey vals = false ∧ d ≠ [] ∧ (∀ x ∈ d, x < 256) ∧ ChunkOk st.b64Chunk st.b64Sep)
   | .bitmap, some (.wl ws) => WfWins ws
   | .names, some (.nl ns) => ∀ n ∈ ns, NameFieldOk st env n
-  | .b64Opt, some (.b d) => ∀ x ∈ d, x < 256
+  | .b64Opt, some (.b d) => (∀ x ∈ d, x < 256) ∧ d.length ≤ 65535
   | .tsigOther, some (.b d) => (∀ x ∈ d, x < 256) ∧ vals[7]? = some (.n d.length)
   | .apl, some (.apl items) => ∀ it ∈ items, AplItemOk it
   | .wks, some (.wks addr proto bm) =>
@@ -344,6 +344,8 @@ theorem tail_rt (st : Style) (env : PEnv) (vals : List FV) (tk : TK) (tail : Opt
       · simp [parseTailE, parseGateway, hty, hparse, halg, hcat, b64_roundtrip key hd]
       · intro t ht; simp at ht; subst ht; exact hnh
   case b64Opt.some.b d =>
+    obtain ⟨h, hlen⟩ := h
+    have hle : ¬ d.length > 65535 := by omega
     by_cases hd0 : d = []
     · subst hd0
       exact ⟨[], by simp [printTail], by simp, by simp [parseTailE, parseTail, concatIdents, b64Decode], by intro t ht; simp at ht⟩
@@ -355,7 +357,7 @@ theorem tail_rt (st : Style) (env : PEnv) (vals : List FV) (tk : TK) (tail : Opt
           cases hx : b64Encode d with
           | nil => exact absurd hx hn
           | cons _ _ => rfl
-        simp [parseTailE, parseTail, concatIdents, concatIdents.go, unescapeCP_plain_all _ hp, b64_roundtrip d h]
+        simp [parseTailE, parseTail, concatIdents, concatIdents.go, unescapeCP_plain_all _ hp, b64_roundtrip d h, hle]
       · intro t ht; simp at ht; subst ht; exact notHash_plain _ hp
   case tsigOther.some.b d =>
     obtain ⟨hd, hv⟩ := h
